@@ -156,7 +156,10 @@ def _host_case(rep):
 def _http_seq(rep):
     from harness.props import http
     from harness.drivers import http_drv
-    t = http_drv.run_sequences([rep["seq"]])
+    if any("real" in st for st in rep["seq"]):
+        t = http_drv.run_real_socket([[st["real"] for st in rep["seq"]]])      # over the loopback socket again
+    else:
+        t = http_drv.run_sequences([rep["seq"]])
     print(json.dumps(t[0]))
     res = validate.validate("HttpTransportTrace", t, http.CONSTS, work=os.path.join(tlc.WORK, "replay_http"), jobs=1)
     print("failed:", res["failed_pairs"])
